@@ -389,11 +389,19 @@ def apply_op(w, op, tmpdir):
             if u == "identity_scribble":
                 # identity() hands out independent poses: writing into one does not change what the next call returns
                 def f():
+                    from ..ref import geom as _G
+
+                    ref_ = np.array(_G.identity(I.kind_of(p)), dtype=float)
                     a_ = type(p).identity()
-                    ref_ = np.array(a_, copy=True)
                     a_[0] = 0.5
                     b_ = type(p).identity()
-                    return ("held_unchanged", bool(np.array_equal(np.asarray(b_), ref_)), ref_)
+                    ok_ = bool(np.array_equal(np.asarray(b_, dtype=float), ref_))
+                    if b_ is a_ or not ok_:
+                        try:
+                            np.asarray(b_)[...] = ref_  # leave the process as we found it
+                        except Exception:
+                            pass
+                    return ("held_unchanged", ok_, ref_)
                 return _safe(f)
             if u == "held":
                 def f():
